@@ -10,7 +10,7 @@ use std::collections::HashSet;
 use std::sync::atomic::{AtomicU64, Ordering};
 use std::sync::{Arc, Barrier, Mutex};
 
-pub const RULE: &str = "For all 22 indicators: (a) clone taken at every prefix of streams of length 3n+3.. for periods 1..=8 (+ sampled larger); original, clone and a fresh replay are then fed the same continuation while a second clone and an unrelated instance are fed a different stream in between, and every output must be bit-identical to the replay's; (b) every merge (interleaving) of two op sequences of length <= 4 and of three of length <= 3 over {next, reset, clone-and-swap} on instances with equal parameters: per-instance outputs must equal the outputs of that sequence run alone; (c) 16 OS threads each driving their own instances (with injected yields/spins between client calls) while all read one Arc-shared instance: per-thread output digests must equal the single-threaded digest, and a whole-workload digest must be equal across runs with 1 and 16 threads (the driver also compares it across separate process launches). Non-trivial: at least one input after the clone point / a merge with >= 2 instances actually interleaved; distinct by construction.";
+pub const RULE: &str = "For all 22 indicators: (a) clone taken at every prefix of streams of length 3n+3.. for periods 1..=8 (+ sampled larger); original, clone and a fresh replay are then fed the same continuation while a second clone and an unrelated instance are fed a different stream in between, and every output must be bit-identical to the replay's; (b) every merge (interleaving) of two op sequences of length <= 4 and of three of length <= 3 over {next, reset, clone-and-swap} on instances with equal parameters: per-instance outputs must equal the outputs of that sequence run alone; (c) 16 OS threads each driving their own instances (with injected yields/spins between client calls) while all read one Arc-shared instance: per-thread output digests must equal the single-threaded digest, and a whole-workload digest must be equal across runs with 1 and 16 threads (the driver also compares it across separate process launches); (d) instances fed on one thread, moved to another and back several times (a decoy of the same type being fed on every thread visited) must return what a single-thread replay returns. Non-trivial: at least one input after the clone point / a merge with >= 2 instances actually interleaved; distinct by construction.";
 
 pub fn digest_out(h: &mut u64, r: &Res) {
     let mut mix = |x: u64| {
@@ -425,6 +425,63 @@ fn run_threads(ctx: &Ctx) -> Report {
     rep
 }
 
+/// (d) migration: an instance is fed on one thread, moved to another, fed there, moved back; its outputs
+/// must be bit-identical to a replay that never left the thread (no per-thread hidden state).
+fn run_migration(ctx: &Ctx) -> Report {
+    let mut rep = Report::new();
+    let hops = ctx.pick(4usize, 12usize);
+    for kind in ALL_KINDS {
+        for n in [1usize, 3, 8] {
+            if kind.n_periods() == 0 && n > 1 {
+                continue;
+            }
+            let p = variant(kind, n);
+            let bars = !kind.has_scalar();
+            let seg = 2 * p.max_period() + 3;
+            let s = stream(bars, seg * (hops + 1), ctx.seed ^ (kind as u64 * 131 + n as u64));
+            let mut replay = Inst::new(&p);
+            let want: Vec<Res> = s.iter().map(|op| replay.apply(op)).collect();
+            let mut inst = Inst::new(&p);
+            let mut got: Vec<Res> = Vec::new();
+            // a decoy of the same type lives (and is fed) on every thread the instance visits
+            for h in 0..=hops {
+                let chunk: Vec<Op> = s[h * seg..(h + 1) * seg].to_vec();
+                if h % 2 == 0 {
+                    let mut decoy = Inst::new(&p);
+                    for op in &chunk {
+                        decoy.apply(&Op::Reset);
+                        got.push(inst.apply(op));
+                        decoy.apply(op);
+                    }
+                } else {
+                    let pp = p;
+                    let (back, outs) = std::thread::spawn(move || {
+                        let mut inst = inst;
+                        let mut decoy = Inst::new(&pp);
+                        let mut outs = Vec::new();
+                        for op in &chunk {
+                            decoy.apply(op);
+                            outs.push(inst.apply(op));
+                        }
+                        (inst, outs)
+                    })
+                    .join()
+                    .expect("migration thread");
+                    inst = back;
+                    got.extend(outs);
+                }
+            }
+            rep.evaluations += got.len() as u64;
+            if let Some(i) = (0..got.len()).find(|i| !res_bits_eq(&got[*i], &want[*i])) {
+                fail(&mut rep, &p, "output_depends_on_thread", "migration", format!("{}: after moving the instance between threads, step {} returned {:?}, a replay on one thread {:?}", p.label(), i + 1, got[i], want[i]), &s[..=i], &s[..=i]);
+            }
+            rep.count("migration.instances_moved_between_threads");
+            rep.distinct_by_construction += 1;
+        }
+    }
+    rep
+}
+
 /// whole-workload digest, identical for any thread count (used across process launches too)
 pub fn workload_digest(seed: u64, threads: usize) -> u64 {
     let workers = 16u64;
@@ -451,6 +508,9 @@ pub fn run(ctx: &Ctx) -> Report {
     if ctx.phase_enabled("merges") {
         rep.merge(run_merges(ctx));
     }
+    if ctx.phase_enabled("migration") {
+        rep.merge(run_migration(ctx));
+    }
     if ctx.phase_enabled("threads") {
         rep.merge(run_threads(ctx));
         let d1 = workload_digest(ctx.seed, 1);
@@ -463,7 +523,7 @@ pub fn run(ctx: &Ctx) -> Report {
         }
     }
     if ctx.only.is_none() {
-        for key in ["clone.positions", "merge.interleavings", "threads.rounds"] {
+        for key in ["clone.positions", "merge.interleavings", "threads.rounds", "migration.instances_moved_between_threads"] {
             if rep.counters.get(key).copied().unwrap_or(0) == 0 {
                 rep.inconclusive.push(format!("coverage floor missed: {} = 0", key));
             }
